@@ -6,7 +6,10 @@ Open Scope N_scope.
 Inductive case :=
 | KS (count n : N) (ranges : list (N * N))
 | KeyC (count n own : N) (subject ns data : bytes) (t : Z)
-       (o_kg o_ridx o_route : N) (o_dbkey o_subjkey o_timerkey : bytes) (o_owns_db o_owns_timer : bool).
+       (o_kg o_ridx o_route : N) (o_dbkey o_subjkey o_timerkey : bytes) (o_owns_db o_owns_timer : bool)
+(* a real Operator deployed several times in a row (same process) into assemblies of different sizes:
+   per deployment (n, own index, reported key-group range, per key (subject, state key, timer key at t=0, owns state key, owns timer key)) *)
+| DeployC (count : N) (deploys : list (N * N * (N * N) * list (bytes * bytes * bytes * bool * bool))).
 
 Definition pair_eqb (a b : N * N) := (fst a =? fst b) && (snd a =? snd b).
 Fixpoint list_eqb {A} (eqb : A -> A -> bool) (a b : list A) : bool :=
@@ -63,7 +66,28 @@ Definition check_case (c : case) : list N :=
       (if bytes_eqb (firstn 2 o_dbkey) (be16 o_kg) && bytes_eqb (firstn 2 o_timerkey) (be16 o_kg)
           && bytes_eqb (firstn 2 o_subjkey) (be16 o_kg) then [] else [17]) ++
       (if includes_kg (nth (N.to_nat o_route) rs (0, 0)) o_kg then [] else [18])
+  | DeployC _ _ => []
+  end.
+
+Definition check_deploy (count : N) (d : N * N * (N * N) * list (bytes * bytes * bytes * bool * bool)) : list N :=
+  let '(n, own, o_range, keys) := d in
+  let rs := kg_ranges count n in
+  let rng := nth (N.to_nat own) rs (0, 0) in
+  (if pair_eqb o_range rng then [] else [19]) ++
+  flat_map (fun k : bytes * bytes * bytes * bool * bool =>
+    let '(subject, o_dbkey, o_timerkey, o_owns_db, o_owns_timer) := k in
+    let kg := key_group count subject in
+    let routed := find_range rs kg 0 in
+    (if bytes_eqb o_dbkey (encode_db_key count subject [] []) then [] else [5]) ++
+    (if bytes_eqb o_timerkey (encode_timer_key count subject 0%Z) then [] else [7]) ++
+    (if Bool.eqb o_owns_db (routed =? own) && Bool.eqb o_owns_timer (routed =? own) then [] else [16]) ++
+    (if bytes_eqb (firstn 2 o_dbkey) (be16 kg) && bytes_eqb (firstn 2 o_timerkey) (be16 kg) then [] else [17])) keys.
+
+Definition check_case' (c : case) : list N :=
+  match c with
+  | DeployC count deploys => flat_map (check_deploy count) deploys
+  | _ => check_case c
   end.
 
 Definition run (cases : list (N * case)) : list (N * N) :=
-  flat_map (fun ic => map (fun code => (fst ic, code)) (check_case (snd ic))) cases.
+  flat_map (fun ic => map (fun code => (fst ic, code)) (check_case' (snd ic))) cases.
